@@ -19,6 +19,9 @@ struct Src {
     seq: usize,
     /// clones of the wakers this source was ever handed (a transport may keep and wake an old clone at any time)
     old: Vec<Waker>,
+    /// generation of the connection behind this key: a stream object of an older generation belongs to a connection
+    /// that was superseded by a newer one under the same key (it stays open and silent)
+    gen: usize,
 }
 struct World {
     script: Vec<Value>,
@@ -36,6 +39,7 @@ struct World {
 type Wd = Arc<Mutex<World>>;
 struct Scripted {
     k: String,
+    gen: usize,
     w: Wd,
 }
 
@@ -54,7 +58,23 @@ fn other_thread_action(w: &Wd, e: &Value) {
                 g.handle.clone().unwrap()
             };
             ev(w, json!({"ev":"ins","k":k}));
-            h.insert(k.clone(), Scripted { k, w: w.clone() });
+            h.insert(k.clone(), Scripted { k, gen: 0, w: w.clone() });
+        }
+        "Reinsert" => {
+            // a new connection registers under a key that is still in the queue (a peer reconnecting under its identity while
+            // the old connection is half-open): what the old connection had not delivered is gone with it, its waker is dead
+            let (h, gen) = {
+                let mut g = w.lock().unwrap();
+                let s = g.srcs.entry(k.clone()).or_default();
+                s.gen += 1;
+                s.avail = 0;
+                s.closed = false;
+                s.waker = None;
+                let gen = s.gen;
+                (g.handle.clone().unwrap(), gen)
+            };
+            ev(w, json!({"ev":"reins","k":k}));
+            h.insert(k.clone(), Scripted { k, gen, w: w.clone() });
         }
         "Produce" => {
             w.lock().unwrap().srcs.entry(k.clone()).or_default().avail += 1;
@@ -127,7 +147,7 @@ fn other_thread_action(w: &Wd, e: &Value) {
     }
 }
 fn is_other(e: &Value) -> bool {
-    matches!(e["a"].as_str().unwrap_or(""), "Insert" | "Produce" | "Close" | "Fire" | "Remove" | "Wake" | "StaleWake" | "StaleFire" | "Exhaust")
+    matches!(e["a"].as_str().unwrap_or(""), "Insert" | "Reinsert" | "Produce" | "Close" | "Fire" | "Remove" | "Wake" | "StaleWake" | "StaleFire" | "Exhaust")
 }
 
 impl Stream for Scripted {
@@ -177,7 +197,11 @@ impl Stream for Scripted {
             }
         }
         // 3. the stream's own answer
-        let yielding = {
+        let superseded = {
+            let g = w.lock().unwrap();
+            g.srcs.get(&self.k).map(|s| s.gen).unwrap_or(0) != self.gen
+        };
+        let yielding = !superseded && {
             let mut g = w.lock().unwrap();
             g.polls_this_call += 1;
             if g.exhausted && g.polls_this_call > 2000 {
@@ -191,8 +215,11 @@ impl Stream for Scripted {
             }
             g.exhausted
         };
-        if yielding {
-            if w.lock().unwrap().polls_this_call <= 30 {
+        if yielding || superseded {
+            if superseded {
+                // the stream of a superseded connection: open, silent for ever
+                ev(&w, json!({"ev":"spoll_old","k":self.k}));
+            } else if w.lock().unwrap().polls_this_call <= 30 {
                 ev(&w, json!({"ev":"spoll","k":self.k,"res":"pending","selfwake":true}));
             }
             {
@@ -202,14 +229,16 @@ impl Stream for Scripted {
                     s.old.push(cx.waker().clone());
                 }
             }
-            cx.waker().wake_by_ref();
+            if yielding {
+                cx.waker().wake_by_ref();
+            }
             if modelled {
                 let mut g = w.lock().unwrap();
                 let e = g.script.get(g.cur).cloned();
                 match e {
                     Some(e) if e["a"] == "PollStream" => {
-                        if e["res"] != "l3" || e["selfwake"] != true {
-                            g.drift.push(format!("PollStream model {} selfwake {} code yields", e["res"], e["selfwake"]));
+                        if e["res"] != "l3" || (yielding && e["selfwake"] != true) {
+                            g.drift.push(format!("PollStream model {} selfwake {} code {}", e["res"], e["selfwake"], if yielding { "yields" } else { "polls a superseded stream" }));
                         }
                         g.cur += 1;
                     }
